@@ -993,13 +993,17 @@ class DateTime(datetime.datetime, Date):
         if day_of_week < WeekDay.MONDAY or day_of_week > WeekDay.SUNDAY:
             raise ValueError("Invalid day of week")
 
-        dt = self if keep_time else self.start_of("day")
+        start = self if keep_time else self.start_of("day")
 
-        dt = dt.add(days=1)
+        # Always step from the start so that a skipped or repeated time
+        # met on the way does not shift the result.
+        days = 1
+        dt = start.add(days=days)
         while dt.day_of_week != day_of_week:
-            dt = dt.add(days=1)
+            days += 1
+            dt = start.add(days=days)
 
-        return dt
+        return dt if keep_time else dt.start_of("day")
 
     def previous(
         self, day_of_week: WeekDay | None = None, keep_time: bool = False
@@ -1027,7 +1031,7 @@ class DateTime(datetime.datetime, Date):
             days += 1
             dt = start.subtract(days=days)
 
-        return dt
+        return dt if keep_time else dt.start_of("day")
 
     def first_of(self, unit: str, day_of_week: WeekDay | None = None) -> Self:
         """
